@@ -214,6 +214,12 @@ class Arrow:
     def __getitem__(self, key):
         if isinstance(key, slice):
             if key.step == -1:
+                if key.start is not None or key.stop is not None:
+                    # partial reversed slice: dagger of the forward slice
+                    rng = range(len(self))[key]
+                    start, stop = (rng[-1], rng[0] + 1) if rng\
+                        else 2 * (rng.start + 1, )
+                    return self[start:stop][::-1]
                 boxes = [box[::-1] for box in self.boxes[key]]
                 return self.upgrade(
                     Arrow(self.cod, self.dom, boxes, _scan=False))
